@@ -9,5 +9,6 @@ for f in spec/*.tla; do
   if grep -q "error" work/sany.out && ! grep -q "Semantic processing of module" work/sany.out; then cat work/sany.out; exit 2; fi
 done
 python3 harness/selftest_bignat.py
+PYTHONDONTWRITEBYTECODE=1 PYTHONHASHSEED=0 /venv/bin/python -B harness/calibrate.py
 PYTHONDONTWRITEBYTECODE=1 PYTHONHASHSEED=0 /venv/bin/python -B harness/pregen.py
 echo "setup ok"
